@@ -292,7 +292,30 @@ class C11(Spec):
         return us
 
 
-_SPECS = {'C08': C08, 'C09': C09, 'C10': C10, 'C11': C11, 'C01': C01, 'C02': C02, 'C03': C03, 'C04': C04, 'C05': C05, 'C06': C06, 'C07': C07}
+KIND = {'SO2': 1, 'SE2': 2, 'SO3': 3, 'SE3': 4, 'SE_2_3': 5, 'SGal3': 6, 'R1': 7, 'R3': 7, 'R9': 7, 'Bundle_R2_SO3_R1': 8, 'Bundle_SE2_SGal3_SE_2_3': 8}
+
+
+class C13(Spec):
+    design_ref = 'DESIGN.md 4/C13'
+    level_text = ('every constructor / setter of every group is driven over argument lattices (angles k*pi/8 over +-8 periods, +-1e6, +-(pi +- 1 ulp); all 17^3 roll-pitch-yaw triples on the pi/4 grid incl. gimbal lock; '
+                  'unit quaternions of the reduced lattice in both hemispheres; angle-axis; isometries; translations / velocities up to 1e6) and the element, its accessors, rotation(), transform()/isometry() and casts are '
+                  'compared with the documented matrix built independently in extended precision; the norm lattice 1 + kappa*eps (kappa from 0 to +-1e10) decides the validation behaviour of every entry point that accepts rotation data, '
+                  'in the assertion-enabled and the NDEBUG build')
+    rule = ('cells = (constructor, argument atoms) and (entry point, quaternion/complex direction, kappa); non-trivial = distinct constructed elements; the band 0.9 < |kappa| < 1.1 is recorded but not judged')
+    explanation = 'explicit enumeration of constructor argument lattices on the real code; oracle = documented rotation conventions (Rz(yaw)Ry(pitch)Rx(roll), Rodrigues, quaternion to matrix) in long double'
+    assumptions = COMMON_ASSUMPTIONS + ['roll-pitch-yaw convention taken as R = Rz(yaw) Ry(pitch) Rx(roll) (the usual aerospace convention, stated in the constructor documentation)']
+
+    def units(self, tier):
+        us = []
+        for b in ('assert', 'ndebug'):
+            for u in lattice_units('checks/c13.cpp', builds=(b,)):
+                gname = u.name.split('/')[0]
+                u.defs.append('VF_KIND=%d' % KIND[gname])
+                us.append(u)
+        return us
+
+
+_SPECS = {'C08': C08, 'C09': C09, 'C10': C10, 'C11': C11, 'C13': C13, 'C01': C01, 'C02': C02, 'C03': C03, 'C04': C04, 'C05': C05, 'C06': C06, 'C07': C07}
 
 
 def get(prop):
